@@ -395,6 +395,11 @@ def c14_extra_cases():
     add("full_arb_nodef", 24, [uint_field("a", [(0, 11)]), uint_field("b", [(12, 23)])], default=False)
     add("almost_arb_nodef", 24, [uint_field("a", [(0, 11)]), uint_field("b", [(12, 22)])], default=False)
     add("zero_writable", 16, [uint_field("a", [(0, 7)], access="r")])
+    # read-only fields that name a bit twice (or whose elements overlap) take nothing away from the builder: nothing is writable twice
+    add("ro_self1", 16, [uint_field("view", [(0, 3), (2, 5)], access="r"), uint_field("a", [(0, 7)])])
+    add("ro_self2", 16, [uint_field("a", [(0, 7)]), uint_field("b", [(8, 15)], access="w"), uint_field("view", [(4, 7), (4, 11)], access="r")], default=False)
+    add("ro_selfarr", 32, [uint_field("view", [(0, 1), (3, 3)], array=arr(3, 1), access="r"), uint_field("a", [(0, 15)])])
+    add("none_self", 16, [uint_field("view", [(0, 3), (3, 6)], access=""), bool_field("f", 9)])
     add("zero_writable_nodef", 16, [uint_field("a", [(0, 7)], access="r")], default=False)
     return out
 
